@@ -170,6 +170,9 @@ def failures(P, R, ld):
     for bid in main.reachable_blocks():
         for e in main.out[bid]:
             r = rules.edge_rel(e)
+            if r and isinstance(r[0], dict) and r[0].get('k') == 'callref' and r[0].get('callee') == 'module_load_list' and e.label == 'true' and not (r[1] in ('!=', '==') and const_of(r[2]) == 0):
+                R.ob('C20.MPT.1', False, P.relloc((main.blocks[bid].get('term') or {}).get('loc', '?')), 'main treats every non-zero result of the module loader as a failure (tests %s)' % e.describe(), key='propagate:main-test')
+                R.obligations[-1]['function'] = main.name
             if r and isinstance(r[0], dict) and r[0].get('k') == 'callref' and r[0].get('callee') == 'module_load_list' and r[1] == '!=' and const_of(r[2]) == 0:
                 rets = [t for t in main.block_sites(e.dst) if t.ev['k'] == 'ret']
                 R.ob('C20.MPT.1', bool(rets) and const_of(rets[0].ev.get('val')) not in (None, 0), rets[0] if rets else main, 'main exits with failure when module loading failed', key='propagate:main')
@@ -353,6 +356,42 @@ def unload(P, R):
     R.floor('C20.GRD.3', 5)
 
 
+def loading_context(P, R, rule='C20.MPT.5'):
+    """Dependencies are booked on "the module being constructed".  module_load sets that context for the constructor
+    call and puts the previous one back on every (non-fatal) way out - a module without a constructor included -
+    otherwise the next module's declarations are booked on the wrong module."""
+    ld = P.need_fn('module_load')
+    ctx = None
+    for s in ld.stores():
+        if s.ev['k'] == 'store' and is_var(s.ev.get('lhs')) and s.ev['lhs'].get('sc') in ('file_static', 'global') and s.ev['lhs'].get('t', '').replace('const ', '').startswith('struct module'):
+            ctx = s.ev['lhs']['name']
+    if ctx is None:
+        R.note('%s: module_load keeps no loading context; nothing to pair' % rule)
+        return
+    saves = {s.ev['lhs']['name'] if s.ev['k'] == 'store' else s.ev.get('var') for s in ld.sites()
+             if ((s.ev['k'] == 'store' and is_var(s.ev.get('lhs')) and s.ev['lhs'].get('sc') == 'local' and is_var(s.ev.get('rhs'), ctx)) or (s.ev['k'] == 'decl' and is_var(s.ev.get('init') or {}, ctx)))}
+
+    def final(e):
+        while isinstance(e, dict) and e.get('k') == 'bin' and e.get('op') == '=':
+            e = e['r']
+        return e
+
+    def on_event(st, t):
+        if is_fatal(t):
+            return None
+        ev = t.ev
+        if ev['k'] == 'store' and is_var(ev.get('lhs'), ctx) and ev.get('op') == '=':
+            v = final(ev.get('rhs'))
+            if is_var(v) and v['name'] in saves:
+                return 'restored'
+            return 'set'
+        return st
+    before, at_exit, _, _ = ld.forward('untouched', on_event, None)
+    sets = [t for t in ld.stores() if t.ev['k'] == 'store' and is_var(t.ev.get('lhs'), ctx)]
+    R.ob(rule, bool(saves) and 'set' not in at_exit, sets[0] if sets else ld, 'module_load restores the previous loading context on every non-fatal exit (exit states: %s)' % sorted(at_exit), key='context-restored')
+    R.floor(rule, 1)
+
+
 def reverse_list_removal(P, R, rule='C20.TAB.1'):
     """Unloading removes the module from each dependency's reverse list with an in-place filter: the entry that is
     tested against the name is the entry that is read and kept (same index as the source of the copy), not the slot
@@ -392,4 +431,5 @@ def run(P, R, tier):
     both_directions(P, R)
     unload(P, R)
     reverse_list_removal(P, R)
+    loading_context(P, R)
     return EXPLANATION, ASSUMPTIONS
